@@ -1351,7 +1351,11 @@ func (a *Allocator) BeginDefragmentation(o DefragmentationInfo, defragContext *D
 		return core1_0.VKErrorUnknown, errors.New("attempted to begin defragmentation with a nil context")
 	}
 
-	var err error
+	err := o.validate()
+	if err != nil {
+		return core1_0.VKErrorUnknown, err
+	}
+
 	if o.Pool != nil {
 		// Linear can't defragment
 		if o.Pool.blockList.Algorithm()&PoolCreateLinearAlgorithm != 0 {
